@@ -106,23 +106,24 @@ func (tpl *Template) newContextForExecution(context Context) (*Template, *Execut
 
 	if context != nil {
 		newContext.Update(context)
+	}
 
-		if len(newContext) > 0 {
-			// Check for context name syntax
-			err := newContext.checkForValidIdentifiers()
-			if err != nil {
-				return parent, nil, err
-			}
+	// (the set's globals are checked as well, also when no context is given)
+	if len(newContext) > 0 {
+		// Check for context name syntax
+		err := newContext.checkForValidIdentifiers()
+		if err != nil {
+			return parent, nil, err
+		}
 
-			// Check for clashes with macro names
-			for k := range newContext {
-				_, has := tpl.exportedMacros[k]
-				if has {
-					return parent, nil, &Error{
-						Filename:  tpl.name,
-						Sender:    "execution",
-						OrigError: fmt.Errorf("context key name '%s' clashes with macro '%s'", k, k),
-					}
+		// Check for clashes with macro names
+		for k := range newContext {
+			_, has := tpl.exportedMacros[k]
+			if has {
+				return parent, nil, &Error{
+					Filename:  tpl.name,
+					Sender:    "execution",
+					OrigError: fmt.Errorf("context key name '%s' clashes with macro '%s'", k, k),
 				}
 			}
 		}
